@@ -7,6 +7,7 @@ package evalfilter
 
 import (
 	"strconv"
+	"unicode/utf8"
 	"github.com/skx/evalfilter/v2/object"
 	"github.com/skx/evalfilter/v2/zzsv"
 )
@@ -465,8 +466,13 @@ func ZZ_C16_HostStrings(sv *zzsv.T) {
 	if len(seenK) != len(want) {
 		return
 	}
+	valid := utf8.ValidString(s)
 	for k := range want {
 		sv.Assert("C16.hoststr.index", zzSame(sv, seenK[k], zInt(int64(k))))
-		sv.Assert("C16.hoststr.char", zzSame(sv, seenV[k], zStr(want[k])))
+		if valid {
+			// (which character stands for a byte that is not valid UTF-8 is
+			// not laid down by the statement: only the counts and indexes are)
+			sv.Assert("C16.hoststr.char", zzSame(sv, seenV[k], zStr(want[k])))
+		}
 	}
 }
